@@ -41,12 +41,30 @@ let show_sv (s : sv) : string =
   (if is_heap s then "h" else "l") ^ string_of_int (int_of_nat (capacity s)) ^ "[" ^ body ^ "]"
 
 let b2s = function Ok true -> "1" | Ok false -> "0" | Err _ -> "E"
+let nb2s = function Ok true -> "0" | Ok false -> "1" | Err _ -> "E"
+
+(* value codes of the double instantiation: integers stand for themselves,
+   100001.. are the special values the harness maps them to; the element
+   operator== / operator< are the IEEE comparisons of OCaml floats *)
+let double_of_code (z : int) : float =
+  match z with
+  | 100001 -> (-0.0)
+  | 100002 -> Int64.float_of_bits 0x7ff8000000000000L
+  | 100003 -> Int64.float_of_bits 0x7ff8000000000123L
+  | 100004 -> infinity
+  | 100005 -> neg_infinity
+  | 100006 -> Int64.float_of_bits 1L
+  | 100007 -> Int64.float_of_bits 0x8000000000000001L
+  | 100008 -> Int64.float_of_bits 0x000fffffffffffffL
+  | _ -> float_of_int z
 
 let record (p : params) (tracked : bool) ((st, r) : state * nat option) : string =
   let a = st.sa and b = st.sb in
   (match r with Some k -> string_of_int (int_of_nat k) | None -> "-")
   ^ ";" ^ show_sv a ^ ";" ^ show_sv b ^ ";"
-  ^ b2s (sv_eq a b) ^ b2s (sv_lt a b) ^ b2s (sv_lt b a)
+  (* == != < <= > >=, the last four as the source defines them from == and < *)
+  ^ b2s (sv_eq p a b) ^ nb2s (sv_eq p a b) ^ b2s (sv_lt p a b) ^ nb2s (sv_lt p b a)
+  ^ b2s (sv_lt p b a) ^ nb2s (sv_lt p a b)
   ^ ";" ^ (if tracked then string_of_int (int_of_nat (live_count p a) + int_of_nat (live_count p b)) else "-")
   ^ ";-;ok"
 
@@ -62,7 +80,14 @@ let () =
             | "i" | "d" -> true, (fun x -> x)
             | "s" -> false, (fun _ -> Z0)
             | _ -> false, (fun _ -> z_of_int (-1)) in
-          let p = { pS = nat_of_int (int_of_string s); ptriv = triv; pdflt = Z0; pmv = mvf } in
+          let eqf, ltf =
+            if ty = "d" then
+              (fun x y -> (double_of_code (int_of_z x) : float) = double_of_code (int_of_z y)),
+              (fun x y -> (double_of_code (int_of_z x) : float) < double_of_code (int_of_z y))
+            else
+              (fun x y -> int_of_z x = int_of_z y), (fun x y -> int_of_z x < int_of_z y) in
+          let p = { pS = nat_of_int (int_of_string s); ptriv = triv; pdflt = Z0; pmv = mvf;
+                    peq = eqf; plt = ltf } in
           let tracked = (ty = "k") in
           let ops = List.map parse_op ops in
           let buf = Buffer.create 256 in
